@@ -102,10 +102,8 @@ def compute_function(func, args, extra_functions=None):
             return None
         else:
             return function(*values)
-    except ValueError as err:
-        raise ArithmeticError(str(err))
-    except ZeroDivisionError:
-        raise ArithmeticError("Division by zero.")
+    except HANDLERS:
+        pass
 '''
 PINNED_LOGIC["unquote"] = '''
 def unquote(s):
@@ -190,12 +188,38 @@ def norm_dump(fn):
     return ast.dump(clone, annotate_fields=True, include_attributes=False)
 
 
+def handler_names(h):
+    """except <Name | (Name, ...)> [as x]: raise ArithmeticError(...)   ->  exception names"""
+    if h.type is None:
+        fail(h, "bare except in compute_function")
+    elts = h.type.elts if isinstance(h.type, ast.Tuple) else [h.type]
+    if not all(isinstance(e, ast.Name) for e in elts):
+        fail(h, "except clause is not a name or tuple of names")
+    if not (len(h.body) == 1 and isinstance(h.body[0], ast.Raise) and isinstance(h.body[0].exc, ast.Call)
+            and isinstance(h.body[0].exc.func, ast.Name) and h.body[0].exc.func.id == "ArithmeticError"):
+        fail(h, "except clause of compute_function does not re-raise as ArithmeticError")
+    return [e.id for e in elts]
+
+
+def strip_handlers(fn):
+    """Copy of a function whose (single, last) try statement has its handlers replaced by a fixed placeholder."""
+    import copy
+    fn = copy.deepcopy(fn)
+    names = []
+    for node in ast.walk(fn):
+        if isinstance(node, ast.Try):
+            for h in node.handlers:
+                names.extend(handler_names(h))
+            node.handlers = ast.parse("try:\n    pass\nexcept HANDLERS:\n    pass").body[0].handlers
+    return fn, names
+
+
 def check_pinned(funcs, pinned, where):
     for name, text in pinned.items():
         if name not in funcs:
             raise TranslationError("c27_modes: %s.%s not found" % (where, name))
         want = norm_dump(ast.parse(text).body[0])
-        got = norm_dump(funcs[name])
+        got = norm_dump(strip_handlers(funcs[name])[0] if name == "compute_function" else funcs[name])
         if want != got:
             raise TranslationError("c27_modes: %s.%s no longer has the shape the hand model describes" % (where, name))
 
@@ -591,9 +615,48 @@ def reachable(g, start):
     return seen
 
 
+def try_guards(fn, target_pred, exc_names):
+    """Is every node satisfying target_pred lexically inside the body of a `try` with a handler for one of exc_names?"""
+    guarded, total = 0, 0
+
+    def walk(node, inside):
+        nonlocal guarded, total
+        if isinstance(node, ast.Try):
+            caught = set()
+            for h in node.handlers:
+                if h.type is None:
+                    caught.add("*")
+                else:
+                    for e in (h.type.elts if isinstance(h.type, ast.Tuple) else [h.type]):
+                        if isinstance(e, ast.Name):
+                            caught.add(e.id)
+            ins = inside or bool(caught & set(exc_names)) or "*" in caught
+            for ch in node.body:
+                walk(ch, ins)
+            for ch in node.handlers + node.orelse + node.finalbody:
+                walk(ch, inside)
+            return
+        if target_pred(node):
+            total += 1
+            if inside:
+                guarded += 1
+        for ch in ast.iter_child_nodes(node):
+            walk(ch, inside)
+    walk(fn, False)
+    return total, guarded
+
+
+def is_call_named(name):
+    return lambda n: isinstance(n, ast.Call) and isinstance(n.func, ast.Name) and n.func.id == name
+
+
+def is_ordering_compare(n):
+    return isinstance(n, ast.Compare) and any(isinstance(o, (ast.Lt, ast.Gt, ast.LtE, ast.GtE)) for o in n.ops)
+
+
 # ----------------------------------------------------------------------------- partial-primitive inventory
 PARTIAL_CALLS = {"int", "float", "round", "sorted", "set", "range"}
-PARTIAL_ATTRS = {"args", "functor", "arity", "compute_value", "with_args", "variables"}
+PARTIAL_ATTRS = {"args", "functor", "arity", "compute_value", "with_args", "variables", "apply", "apply_term"}
 
 
 def primitive_inventory(fn):
@@ -609,8 +672,13 @@ def primitive_inventory(fn):
             out.append("call:" + ast.unparse(node.func))
         elif isinstance(node, ast.Compare) and any(isinstance(o, (ast.Lt, ast.Gt, ast.LtE, ast.GtE)) for o in node.ops):
             out.append("cmp:" + ast.unparse(node))
+        elif isinstance(node, ast.Call) and isinstance(node.func, ast.Name) and node.func.id == "unify_value":
+            pass
         elif isinstance(node, ast.Raise):
             out.append("raise " + (ast.unparse(node.exc.func) if isinstance(node.exc, ast.Call) else ast.unparse(node.exc) if node.exc else ""))
+    tot, g = try_guards(fn, is_call_named("unify_value"), ["UnifyError"])
+    if tot != g:
+        out.append("unguarded:unify_value")
     return sorted(set(out))
 
 
@@ -634,6 +702,7 @@ def translate(repo):
         ltree = ast.parse(f.read())
     check_pinned(module_functions(ltree), PINNED_LOGIC, "logic")
     arith = translate_arith(ltree)
+    arith_caught = strip_handlers(module_functions(ltree)["compute_function"])[1]
 
     pt = PredTranslator(funcs)
     rows = find_mode_types(tree, pt)
@@ -714,11 +783,31 @@ def translate(repo):
     w("Definition arith_functions : list (string * nat) :=")
     w("  " + coq_list(["(%s, %d%%nat)" % (coq_str(k[0]), k[1]) for k in sorted(arith)]) + ".")
     w("")
+    w("(* ---- exceptions that logic.compute_function converts into ArithmeticError (its `except` clauses) *)")
+    w("Definition arith_caught : list string := %s." % coq_list([coq_str(x) for x in arith_caught]))
+    w("(* ---- ordering comparison builtins whose `a_value < b_value` sits inside a try that handles TypeError *)")
+    guarded_cmp = []
+    for f in ["_builtin_gt", "_builtin_lt", "_builtin_le", "_builtin_ge"]:
+        tot, gok = try_guards(funcs[f], is_ordering_compare, ["TypeError"])
+        if tot == 0:
+            raise TranslationError("c27_modes: %s no longer contains an ordering comparison" % f)
+        if tot == gok:
+            guarded_cmp.append(f)
+    w("Definition cmp_type_guarded : list string := %s." % coq_list([coq_str(x) for x in guarded_cmp]))
+    w("(* ---- does _builtin_atom_number test math.isfinite / math.isinf / math.isnan before round()? *)")
+    fin = any(isinstance(n, ast.Attribute) and isinstance(n.value, ast.Name) and n.value.id == "math" and n.attr in ("isfinite", "isinf", "isnan")
+              for n in ast.walk(funcs["_builtin_atom_number"]))
+    tot, gok = try_guards(funcs["_builtin_atom_number"], is_call_named("round"), ["OverflowError"])
+    tot2, gok2 = try_guards(funcs["_builtin_atom_number"], is_call_named("round"), ["ValueError"])
+    w("Definition atom_number_round_guarded : bool := %s." % ("true" if (fin or (tot == gok and tot2 == gok2)) else "false"))
+    w("")
     w("(* ---- syntactic inventory of partial Python primitives in the hand-modelled builtin bodies *)")
     for f in MODELLED:
         if f not in funcs:
             raise TranslationError("c27_modes: modelled builtin %s not found" % f)
         w("Definition prims%s : list string := %s." % (f, coq_list([coq_str(x) for x in primitive_inventory(funcs[f])])))
+    w("Definition all_prims : list (string * list string) :=")
+    w("  " + coq_list(["(%s, prims%s)" % (coq_str(f), f) for f in MODELLED]) + ".")
     w("")
     text = "\n".join(out) + "\n"
     table = {"mode_letters": sorted(known_letters), "sites": sites, "registrations": regs,
